@@ -15,6 +15,7 @@ import FendModel.Model.Cli
 import FendModel.Model.Dist
 import FendModel.Model.UnitLookup
 import FendModel.Model.Units
+import FendModel.Model.NumLit
 
 open Fend Fend.Proto
 
@@ -476,6 +477,45 @@ def unitsLine (line : String) : String :=
         | none => "bad-op"
   | _ => "bad-op"
 
+/-- `<style> <base> <plain|custom|zero> <dot|comma> <+|-> <num> <den>` (already simplified) -/
+def ratfmtLine (line : String) : String :=
+  match line.trimAscii.toString.splitOn " " with
+  | [st, b, pf, sp, sg, n, d] =>
+    let style : Option Fend.Fmt.Style := match st.splitOn ":" with
+      | ["fraction"] => some .improper | ["mixed"] => some .mixed | ["float"] => some .exactFloat
+      | ["exact"] => some .exact | ["auto"] => some .auto
+      | ["dp", k] => k.toNat?.map .dp | ["sf", k] => k.toNat?.map .sf
+      | _ => none
+    let pfx : Option Fend.Fmt.Pfx := match pf with
+      | "plain" => some .plain | "custom" => some .custom | "zero" => some .zero | _ => none
+    match style, b.toNat?, pfx, n.toNat?, d.toNat? with
+    | some style, some b, some pfx, some n, some d =>
+      if d = 0 then "bad-op" else
+      let (t, ex) := Fend.Fmt.fmtRat ⟨b, pfx, style, if sp = "comma" then ',' else '.'⟩ (sg = "-") n d
+      "ok " ++ String.ofList t ++ (if ex then " exact" else " approx")
+    | _, _, _, _, _ => "bad-op"
+  | _ => "bad-op"
+
+/-- `<dot|comma> <packed literal text>`: the literal at the head of the text -/
+def numlitLine (line : String) : String :=
+  match line.trimAscii.toString.splitOn " " with
+  | [sp, txt] =>
+    match strOfPacked txt with
+    | none => "bad-op"
+    | some t =>
+      let (sep, th) := if sp = "comma" then (',', '.') else ('.', ',')
+      match Fend.NumLit.parseNumber sep th t.toList with
+      | .error e => "err " ++ (match e with
+          | .expectedDigit => "expectedDigit" | .expectedChar => "expectedChar" | .sepNotAllowed => "sepNotAllowed"
+          | .sepBetweenDigits => "sepBetweenDigits" | .baseTooLarge => "baseTooLarge" | .baseTooSmall => "baseTooSmall"
+          | .invalidBasePrefix => "invalidBasePrefix" | .other => "other")
+      | .ok (.dice, _) => "dice"
+      | .ok (.num p rest, pfx) =>
+        -- a zero denominator cannot arise: b^r - 1 ≥ 1 for r ≥ 1, b ≥ 2
+        "ok " ++ showRatQ (Fend.NumLit.litValue p) ++ " base=" ++ toString p.base ++ " " ++
+          (match pfx with | .plain => "plain" | .custom => "custom" | .zero => "zero") ++ " rest=" ++ packedOfStr (String.ofList rest)
+  | _ => "bad-op"
+
 partial def loop (h : IO.FS.Stream) (out : IO.FS.Stream) (f : String → String) : IO Unit := do
   let line ← h.getLine
   if line.isEmpty then return ()
@@ -501,5 +541,7 @@ def main (args : List String) : IO UInt32 := do
   | ["dist"] => loop stdin stdout distLine; return 0
   | ["unitlookup"] => loop stdin stdout unitLookupLine; return 0
   | ["units"] => loop stdin stdout unitsLine; return 0
+  | ["ratfmt"] => loop stdin stdout ratfmtLine; return 0
+  | ["numlit"] => loop stdin stdout numlitLine; return 0
   | ["clirun"] => loop stdin stdout clirunLine; return 0
   | _ => IO.eprintln "usage: fend_model_driver <stream>"; return 2
